@@ -6,19 +6,32 @@ ID = "C28"
 THEOREMS = [
     "C28_write_tree", "C28_write_tree_git_partial",
     "C28_write_tree_flat_partial", "C28_write_tree_flat_git_partial", "C28_ita_refuted",
+    "C28_commit_symlink_refuted", "C28_commit_files",
     "C28_rm_file_eq", "C28_rm_dir_missing_refuted", "C28_rm_untracked_dir_refuted",
+    "C28_rm_below_file_refuted", "C28_rm_deleted_dir_refuted",
     "C28_mv_eq_partial", "C28_mv_stat_refuted", "C28_mv_mkdir_refuted",
     "C28_clean_d_eq_partial", "C28_clean_subdir_refuted",
+    "C28_clean_ignored_dir_refuted", "C28_add_below_tracked_file_refuted",
     "C28_add_ignored_refuted", "C28_add_filemode_refuted", "C28_add_replaced_dir_refuted",
+    "C28_add_scope_eq", "C28_add_file_eq", "C28_add_deleted_eq", "C28_add_dir_eq", "C28_add_all_eq",
+    "C28_rm_dir_eq", "C28_clean_nod_eq_partial",
+    "C28_add_glob_eq", "C28_rm_glob_eq", "C28_rm_glob_missing_dir_refuted",
+    "C28_tree_order", "C28_base_name_compare", "C28_write_tree_id_flat_partial",
+    "C28_commit_head", "C28_commit_head_update", "C28_commit_merge_head_refuted", "C28_commit_amend_merge_refuted",
 ]
-MODEL_FILES = ["Status.v", "IndexOps.v"]
-MODELLED = ("worktree_status.go doAdd / doAddDirectory / doAddFile (file, directory, All), doUpdateFileToIndex (mode, size, "
-            "mtime from the file), Remove / doRemoveDirectory / doRemoveFile, Move; worktree.go Clean / doClean; "
-            "worktree_commit.go buildTreeHelper.BuildTree (commitIndexEntry, doBuildTree with the never-written h.entries, "
-            "zero-hash skip, sortName) on the flattened state of Model/Status.v (Model/IndexOps.v); spec: git add / add -A / "
-            "rm -r -f / mv / clean -f [-d] / write-tree on the same state (Spec/GitIndexOps.v); not modelled: object "
-            "storage, tree encoding and ids (checked against `git write-tree` by the oracle), empty-directory clean-up, "
-            "AddGlob / RemoveGlob, commit metadata and hooks, autocrlf (C31)")
+MODEL_FILES = ["Status.v", "IndexOps.v", "CommitHead.v", "WriteTree.v", "TreeObj.v", "IndexGlob.v"]
+MODELLED = ("worktree_status.go doAdd / doAddDirectory / doAddFile (file, directory, All), AddGlob (go-billy util.Glob component by "
+            "component, filepath.Match restricted to literals, '*' and '?'), doUpdateFileToIndex (mode, size, mtime from the file), "
+            "Remove / doRemoveDirectory / doRemoveFile, RemoveGlob (index.Glob's whole-name match, doRemoveFile, "
+            "removeEmptyDirectory incl. its failure on a missing directory), Move; worktree.go Clean / doClean; "
+            "worktree_commit.go Commit: CommitOptions.Validate (parents default to HEAD), Amend, both empty-commit tests, "
+            "updateHEAD (Model/CommitHead.v); buildTreeHelper.BuildTree (commitIndexEntry, doBuildTree with the never-written "
+            "h.entries, zero-hash skip) and copyTreeToStorageRecursive (per-directory sort by sortName, Tree.Encode with "
+            "Tree.Validate from C04's Model/TreeObj.v, SHA-1 object ids from C01's Spec/SHA.v: Model/WriteTree.v) on the "
+            "flattened state of Model/Status.v; spec: git add / add -A / rm -r -f / mv / clean -f [-d] / write-tree "
+            "(cache-tree.c transcription, base_name_compare) / commit [--amend] [--allow-empty] incl. MERGE_HEAD; not "
+            "modelled: object storage, empty-directory clean-up beyond RemoveGlob's, character classes and escapes in glob "
+            "patterns, commit metadata, signing and hooks, autocrlf (C31), CommitOptions.All")
 TRUSTED = [
     "C-impl: the go-git operation on a repository built by harness/porc vs Model/IndexOps on every case (index and worktree listings, commit tree listing)",
     "oracle: the equivalent git command on a copy of the same repository: index (`ls-files -s` read back), worktree files, "
@@ -27,8 +40,10 @@ TRUSTED = [
 ]
 ASSUMPTIONS = ["object ids are injective on the generated contents (content identity stands for the id)",
                "Worktree.Status behaves as Model/Status says (C27; the generator avoids the C27 deviation shapes except where noted)"]
-RULE = ("case = flattened (HEAD, index, worktree) state + one operation from {add file, add dir, add all, rm file, rm dir, mv, "
-        "clean, clean -d, commit} aimed at tracked / untracked / deleted / ignored / replaced-by-directory paths; "
+RULE = ("case = flattened (HEAD, index, worktree) state + one operation from {add file, add dir, add all, add glob, rm file, rm dir, "
+        "rm glob, mv, clean, clean -d, commit (tree listing and tree id), commit on {unborn branch, branch, detached HEAD} x "
+        "{plain, amend of a root / of a commit with a parent / of a merge} x {staged change, nothing staged, empty index} x "
+        "AllowEmptyCommits x merge in progress} aimed at tracked / untracked / deleted / ignored / replaced-by-directory paths; "
         "non-trivial = the operation changes the index, the worktree or produces a tree; distinct by content")
 
 MODE = {"f": 0, "x": 1, "l": 2}
@@ -74,11 +89,22 @@ def call(prefix, c):
         return "%saddall %s %s" % (prefix, tbl, state)
     if op == "rm":
         return "%srm %s %s %s" % (prefix, tbl, state, hx(c["path"]))
+    if op in ("addglob", "rmglob"):
+        return "%s%s %s %s %s" % (prefix, op, tbl, state, hx(c["path"]))
     if op == "mv":
         return "%smv %s %s %s %s" % (prefix, tbl, state, hx(c["path"]), hx(c["to"]))
     if op == "clean":
         return "%sclean %s %s %s" % (prefix, tbl, state, coq_bool(c["dir"]))
-    return "%scommit %s %s" % (prefix, tbl, state)
+    if op == "commithead":
+        hk = {"unborn": 0, "branch": 1, "detached": 2}[c["hk"]]
+        same = c["hist"] >= 1 and {q: (m, d) for q, (m, d, _) in st["index"].items()} == st["head"]
+        tree = 1 if same else (0 if not st["index"] else 2)
+        args = "%s %s %s %s %s %s %s" % (coq_N(hk), coq_N(c["hist"]), coq_bool(c["amend"]), coq_bool(c["allow"]),
+                                         coq_bool(c["merge"]), coq_N(1), coq_N(tree))
+        if prefix == "c28_":
+            args += " " + coq_bool(not st["index"])
+        return "%scommithead %s" % (prefix, args)
+    return "%scommit_id %s %s" % (prefix, tbl, state)
 
 
 def under(d, p):
@@ -91,8 +117,66 @@ def deviation(c):
     op, idx, wt = c["op"], st["index"], st["wt"]
     p = c.get("path")
     isdir = lambda q: q not in wt and any(under(q, w) for w in wt)
+    if op == "commithead":
+        same = c["hist"] >= 1 and {q: (m, d) for q, (m, d, _) in idx.items()} == st["head"]
+        if c["merge"]:
+            return "commit-ignores-merge-head"
+        if c["amend"] and c["hist"] == 3 and not c["allow"] and same:
+            return "commit-amend-merge-empty"
+        return None
     if op == "commit":
+        if any(m == "l" and q.rsplit("/", 1)[-1] in (".gitignore", ".gitattributes", ".mailmap", ".gitmodules") for q, (m, _, _) in idx.items()):
+            return "commit-dotfile-symlink"
         return "commit-ita" if any(f == "ita" for (_, _, f) in idx.values()) else None
+    if op == "rmglob":
+        import re
+        rx = re.compile("^" + "".join(".*" if ch == "*" else "." if ch == "?" else re.escape(ch) for ch in p) + "$", re.S)
+        victims = [q for q in sorted(idx, key=lambda x: x.encode()) if rx.match(q)]
+        if "*" not in p and "?" not in p and any(under(p, q) for q in idx):
+            return "rmglob-directory-not-recursive"
+        live = set(wt)
+        for q in victims:
+            if any(under(x, q) for x in live):
+                return "rm-below-file"
+            if q not in live and any(under(q, x) for x in live):
+                return "rmglob-entry-is-directory"
+            d = q.rsplit("/", 1)[0] if "/" in q else None
+            if d is not None and not any(under(d, x) for x in live):
+                return "rmglob-missing-dir"
+            live.discard(q)
+        for q in victims:
+            comps = q.split("/")
+            for k in range(1, len(comps) - 1):
+                d = "/".join(comps[:k])
+                if not any(under(d, x) for x in live) and not any(e == d or under(d, e) for e in st["dirs"]):
+                    return "rmglob-empty-grandparent"
+        return None
+    if op == "addglob":
+        import fnmatch
+        def kids(d):
+            pre = d + "/" if d else ""
+            return sorted({x[len(pre):].split("/")[0] for x in wt if x.startswith(pre)})
+        cands = [""]
+        for cp in p.split("/"):
+            cands = [(d + "/" if d else "") + n for d in cands if d == "" or isdir(d) for n in kids(d) if fnmatch.fnmatchcase(n, cp)]
+        inscope = lambda q: any(q == m or under(m, q) for m in cands)
+        if not st["filemode"]:
+            for q, (m2, _, _) in wt.items():
+                if inscope(q) and m2 != "l":
+                    old = idx.get(q)
+                    want = old[0] if (old is not None and old[0] != "l") else "f"
+                    if m2 != want:
+                        return "add-filemode-false"
+        for m in cands:
+            if any((q == m or under(m, q)) and isdir(q) for q in idx):
+                return "add-file-replaced-by-dir"
+            if m in wt and any(under(q, m) for q in idx):
+                return "add-below-tracked-file"
+            if m in wt and m not in idx and pg.ignored(st, m):
+                return "add-ignored-explicit"
+            if any((q == m or under(m, q)) and q not in wt and any(under(x, q) for x in wt) for q in idx):
+                return "add-dir-replaced-by-file"
+        return None
     if op in ("add", "addall", "mv") and not st["filemode"]:
         for q, (m, cont, t) in wt.items():
             old = idx.get(q if op != "mv" else p)
@@ -104,6 +188,8 @@ def deviation(c):
         scope = (lambda q: True) if op == "addall" else (lambda q: q == p or under(p, q))
         if any(scope(q) and isdir(q) for q in idx):
             return "add-file-replaced-by-dir"
+        if op == "add" and p in wt and any(under(q, p) for q in idx):
+            return "add-below-tracked-file"
         if op == "add" and p in wt and p not in idx and pg.ignored(st, p):
             return "add-ignored-explicit"
         if op == "add" and isdir(p) and not any(under(p, q) for q in idx) and all(pg.ignored(st, q) for q in wt if under(p, q)):
@@ -112,10 +198,14 @@ def deviation(c):
             return "add-dir-replaced-by-file"
         if op == "add" and isdir(p) and pg.ignored(st, p + "/\x01"):
             return "add-ignored-explicit"
+    if op == "rm" and any(under(q, p) for q in wt) and (p in idx or any(under(p, q) for q in idx)):
+        return "rm-below-file"
+    if op == "rm" and p not in wt and not isdir(p) and p not in idx and any(under(p, q) for q in idx):
+        return "rm-deleted-dir"
+    if op == "mv" and p in idx and isdir(p):
+        return "mv-source-is-directory"
     if op == "rm" and isdir(p) and any(under(p, q) and q not in wt for q in idx):
         return "rm-dir-missing-file"
-    if op == "rm" and isdir(p) and not any(under(p, q) for q in idx):
-        return "rm-untracked-dir-ok"
     if op == "rm" and isdir(p) and any(under(p, d) or d == p for d in st["dirs"]):
         return "rm-prunes-empty-dirs"
     if op == "rm":
@@ -131,13 +221,20 @@ def deviation(c):
         return "mv-mkdir"
     if op == "mv" and p in wt and p in idx and (wt[p][1] != idx[p][1] or wt[p][0] != idx[p][0]):
         return "mv-modified-stat"
-    if op == "add" and p not in wt and p not in idx and p in st["head"] and not isdir(p):
-        return "add-missing-path-ok"
     if op == "add" and p not in wt and p not in idx and not isdir(p) and any(under(p, q) for q in idx):
         return "add-deleted-dir"
     if op == "clean" and any(q not in idx and not pg.ignored(st, q) and any(under(e, q) for e in idx) for q in wt):
         return "clean-under-tracked-name"
+    if op == "clean" and c["dir"] and any(pg.ignored(st, d + "/\x01") for d in st["dirs"]):
+        return "clean-removes-ignored-empty-dir"
     if op == "clean" and c["dir"]:
+        for e in st["dirs"]:                      # an empty directory below a directory whose tracked files are all deleted
+            comps = e.split("/")
+            for k in range(1, len(comps)):
+                d = "/".join(comps[:k])
+                rest = [x for x in wt if under(d, x) and (x in idx or pg.ignored(st, x))]
+                if not rest and any(under(d, x) for x in idx):
+                    return "clean-rmdir-tracked"
         for q in wt:
             if q not in idx and not pg.ignored(st, q) and "/" in q:
                 comps = q.split("/")
@@ -158,16 +255,22 @@ def deviation(c):
 class Main(Suite):
     name = "main"
     go_cmd = "c28"
-    coq_imports = "From GoGit Require Import Model.Status Model.IndexOps Spec.GitIndexOps."
-    quick_n = 110
+    coq_imports = "From GoGit Require Import Model.Status Model.IndexOps Spec.GitIndexOps Model.CommitHead Spec.GitCommitHead Model.WriteTree Spec.GitWriteTree Model.IndexGlob Spec.GitIndexGlob."
+    quick_n = 128
     thorough_n = 400
     coq_chunk = 60
 
     def gen(self, rng, n, tier):
         cases = []
-        ops = ["add", "add", "adddir", "addall", "rm", "rmdir", "mv", "clean", "cleand", "commit", "commit"]
+        ops = ["add", "add", "adddir", "addall", "rm", "rmdir", "mv", "clean", "cleand", "commit", "commit", "commithead", "commithead",
+               "addglob", "rmglob", "addglob"]
+        nhead = 0
         for k in range(n):
             kind = ops[k % len(ops)]
+            if kind == "commithead":
+                cases.append(self.gen_commithead(rng, nhead))
+                nhead += 1
+                continue
             feats = ["ignore", "racy", "typechange", "stagedel"]
             if kind == "commit" and rng.random() < 0.3:
                 feats.append("ita")
@@ -200,15 +303,74 @@ class Main(Suite):
                 c["to"] = rng.choice(["new", "d/new", "nd/new"] + allp[:2])
                 if any(c["to"].startswith(q + "/") for q in wt):      # a file where a directory is needed: not a rename question
                     c["to"] = "new"
+            elif kind in ("addglob", "rmglob"):
+                # patterns of literals, '*' and '?', aimed at what the state holds: a directory with something to add
+                # below it (matched at the top, or one level down), a changed / untracked / tracked file, or anything
+                c["op"] = kind
+                c["dirs"] = []          # directory listings of the model: the files only
+                changed = [q for q in wt if q not in idx or idx[q][:2] != wt[q][:2]] + [q for q in idx if q not in wt]
+                src = sorted(idx) if kind == "rmglob" else sorted(changed)
+                nested = [q for q in src if "/" in q]
+                r = rng.random()
+                if nested and r < 0.35:
+                    top = rng.choice(nested).split("/")[0]
+                    c["path"] = rng.choice([top[0] + "*", "*", top, "?" * len(top), top[:-1] + "?"])
+                elif nested and r < 0.55:
+                    q = rng.choice(nested)
+                    d, base = q.rsplit("/", 1)
+                    c["path"] = rng.choice([d + "/*", "*/" + base if d.count("/") == 0 else d + "/" + base[0] + "*", d + "/" + "?" * len(base)])
+                elif src and r < 0.8:
+                    q = rng.choice(src)
+                    c["path"] = rng.choice([q[:-1] + "?", q[0] + "*", "*" + q[-1], q]) if "/" not in q else rng.choice(["*/*", q, q.split("/")[0] + "/*"])
+                else:
+                    c["path"] = rng.choice(["*", "d*", "?", "a*", "*.o", "d/*", "*/*", "d/?", "a/?", "d/g/*", "*/g/?", "nosuch*", "b", "d",
+                                            "build/*", "*x", "??", "d.?"])
             elif kind in ("clean", "cleand"):
                 c["op"], c["dir"] = "clean", kind == "cleand"
             else:
                 c["op"] = "commit"
+            # the model has no empty directories: a path argument must not exist only through them
+            for arg in (c.get("path"), c.get("to")):
+                if arg:
+                    top = arg.split("/")[0]
+                    if not any(q == top or q.startswith(top + "/") for q in wt):
+                        c["dirs"] = [e for e in c["dirs"] if e.split("/")[0] != top]
             c["bucket"] = kind
             cases.append(c)
         return cases
 
+    # HEAD shapes x options of the commithead bucket, enumerated in turn
+    HEADS = [("branch", 1), ("branch", 2), ("unborn", 0), ("detached", 1), ("detached", 2), ("branch", 3), ("detached", 3)]
+
+    def gen_commithead(self, rng, j):
+        """Commit's parents / HEAD update: unborn branch, branch, detached HEAD, amend (of a root, of a commit with a
+        parent, of a merge), empty and non-empty commits, AllowEmptyCommits, a merge in progress (.git/MERGE_HEAD)"""
+        hk, hist = self.HEADS[j % len(self.HEADS)]
+        st = pg.gen_state(rng, features=("racy",))
+        st["exclude"], st["fmt"], st["filemode"] = b"", "sha1", True
+        if hist == 0:
+            st["head"] = {}
+        elif not st["head"]:
+            st["head"] = {"a": ("f", b"1\n")}
+        r = rng.random()
+        if hist >= 1 and r < 0.35:
+            st["index"] = {q: (m, d, "") for q, (m, d) in st["head"].items()}      # nothing staged
+        elif r < 0.45:
+            st["index"] = {}                                                        # empty index
+        elif hist >= 1 and {q: (m, d) for q, (m, d, _) in st["index"].items()} == st["head"]:
+            st["index"]["zz"] = ("f", b"new\n", "")
+        st["wt"] = {q: (m, d, "") for q, (m, d, _) in st["index"].items()}
+        st["dirs"] = []
+        c = pg.recipe(st)
+        c.update({"op": "commithead", "hk": hk, "hist": hist, "amend": rng.random() < 0.4, "allow": rng.random() < 0.25,
+                  "merge": hist >= 1 and rng.random() < 0.12, "bucket": "commithead"})
+        return c
+
     def model_expr(self, c):
+        if c["op"] == "mv":
+            st = pg.state_of(c)
+            if c["path"] in st["index"] and c["path"] not in st["wt"] and any(under(c["path"], q) for q in st["wt"]):
+                return None   # Move writes an entry with mode 040000: outside the model's file modes (finding mv-source-is-directory)
         return call("c28_", c)
 
     def nontrivial(self, c):
@@ -217,6 +379,7 @@ class Main(Suite):
     def oracle(self, ctx, cases, impl, model):
         """the property itself: index, remaining files, status after add/mv and the committed tree equal git's"""
         fails = {}
+        self.status_only = 0
         for c in cases:
             r = impl.get(c["id"])
             ex = r.get("extra") if r else None
@@ -226,10 +389,19 @@ class Main(Suite):
             why = []
             if ex.get("git_cannot_read_index"):
                 why.append("git cannot read the index go-git wrote: " + ex["git_cannot_read_index"][:120])
-            if bool(ex.get("err")) != bool(ex.get("giterr")):
-                why.append("go-git %s, git %s" % ("fails: " + ex["err"][:80] if ex.get("err") else "succeeds",
-                                                  "fails: " + ex["giterr"][:120].replace("\n", " ") if ex.get("giterr") else "succeeds"))
-            if c["op"] == "commit":
+            # The exit status alone is not part of the property (same index entries and remaining files): git also
+            # exits 1 after doing the work (e.g. `git add <tracked file below an ignored directory>` updates the
+            # index and then complains about the directory), and a refusal on one side shows up as a state difference.
+            if c["op"] != "commithead" and bool(ex.get("err")) != bool(ex.get("giterr")):
+                self.status_only = getattr(self, "status_only", 0) + 1
+            if c["op"] == "commithead":
+                if ex.get("obs") != ex.get("git_obs"):
+                    why.append("commit result / parents / HEAD update %s differ from git commit %s" % (ex.get("obs"), ex.get("git_obs")))
+                elif ex.get("tree_id") != ex.get("git_tree_id"):
+                    why.append("commit tree %s differs from git's %s" % (ex.get("tree_id"), ex.get("git_tree_id")))
+            elif c["op"] == "commit":
+                if ex.get("err") and not ex.get("giterr"):
+                    why.append("Commit fails (%s) where git write-tree succeeds" % ex["err"][:120])
                 if not ex.get("err") and ex.get("tree_id") != ex.get("git_tree_id"):
                     why.append("commit tree %s differs from git write-tree %s" % (ex.get("tree_id"), ex.get("git_tree_id")))
                 if not ex.get("err") and not ex.get("head_is_commit"):
@@ -275,8 +447,21 @@ class Main(Suite):
                 return items
             if c["op"] == "add" and c["path"] not in pg.state_of(c)["wt"] and pg.ignored(pg.state_of(c), c["path"] + "/\x01"):
                 continue   # an ignored directory named explicitly: the verdict for directories is not part of the state
+            if c["op"] == "mv" and self.model_expr(c) is None:
+                continue
+            if c["op"] == "commithead":
+                if o != ex.get("git_obs"):
+                    bad += 1
+                    ctx.notes.append("spec_mismatch GitCommitHead vs git on %s: S %s / git %s" % (
+                        {k: v for k, v in c.items() if k != "id"}, o, ex.get("git_obs")))
+                continue
             if c["op"] == "commit":
-                continue   # S's tree listing is checked through the tree id by the oracle; here only index ops
+                # S = the transcription of cache-tree.c (Spec/GitWriteTree.v) against `git write-tree`
+                if not ex.get("giterr") and o != "x" + (ex.get("git_tree_id") or ""):
+                    bad += 1
+                    ctx.notes.append("spec_mismatch GitWriteTree vs git on %s: S %s / git %s" % (
+                        {k: v for k, v in c.items() if k != "id"}, o, ex.get("git_tree_id")))
+                continue
             want_err = bool(ex.get("giterr"))
             got_err = o.startswith("( err")
             # compare listings textually: rebuild S's listing in the harness' plain form
@@ -299,11 +484,12 @@ class Main(Suite):
             si, sw = plain(body[:cut] if cut else ""), plain(body[cut:] if cut else "")
             gi = list(ex.get("b_index") or [])
             gw = [x for x in (ex.get("b_wt") or []) if not x.startswith("d ")]
-            if want_err != got_err or si != gi or sw != gw:
+            if si != gi or sw != gw:
                 bad += 1
                 ctx.notes.append("spec_mismatch GitIndexOps vs git on %s: S %s / git err=%s idx=%s wt=%s" % (
                     {k: v for k, v in c.items() if k != "id"}, o[:400], want_err, gi, gw))
-        return {"spec_vs_git_cases": sum(1 for c in cases if c["op"] != "commit"), "spec_mismatches": bad}
+        return {"spec_vs_git_cases": len(cases), "spec_mismatches": bad,
+                "exit_status_only_differences": getattr(self, "status_only", 0)}
 
 
 SUITES = [Main()]
